@@ -75,6 +75,8 @@ impl<T> BlockNode<T> {
     fn set(&self, index: usize, v: T) {
         unsafe {
             let data = self.data.get_unchecked(index & BLOCK_MASK);
+            #[cfg(may_verif)]
+            let _slot = crate::verif::slot_write(data.value.get() as *const T, index & BLOCK_MASK, &v);
             data.value.get().write(MaybeUninit::new(v));
         }
         // make sure the data is stored before the index is updated
@@ -86,6 +88,8 @@ impl<T> BlockNode<T> {
     #[inline]
     unsafe fn peek(&self, index: usize) -> &T {
         let data = self.data.get_unchecked(index & BLOCK_MASK);
+        #[cfg(may_verif)]
+        let _slot = crate::verif::slot_read(data.value.get() as *const T, index & BLOCK_MASK);
         (*data.value.get()).assume_init_ref()
     }
 
@@ -96,6 +100,8 @@ impl<T> BlockNode<T> {
         debug_assert!(id < BLOCK_SIZE);
         unsafe {
             let data = self.data.get_unchecked(id);
+            #[cfg(may_verif)]
+            let _slot = crate::verif::slot_read(data.value.get() as *const T, id);
             data.value.get().read().assume_init()
         }
     }
